@@ -1359,6 +1359,15 @@ func (r *Resolver) authority(ctx context.Context, req, resp *dns.Msg, parentDS [
 					}
 				}
 
+				// verifyDNSSEC authenticated the signer zone's records only and
+				// skipped whatever else the upstream put next to them. As in
+				// answer(), drop that remainder — out-of-zone authority RRsets
+				// and every additional record but the OPT — so the reply, and
+				// the AD bit set on it below, covers validated data alone
+				// (RFC 4035 §3.2.3).
+				resp.Ns = dnsutil.FilterRRsToZone(resp.Ns, chosenSigner)
+				resp.Extra = keepOPT(resp.Extra)
+
 				if !req.CheckingDisabled {
 					resp.AuthenticatedData = denialSecure
 				}
@@ -3215,6 +3224,17 @@ func (r *Resolver) verifyDNSSEC(ctx context.Context, signer, signed string, resp
 	}
 
 	return true, nil
+}
+
+// keepOPT returns the OPT pseudo-record of an additional section, if any,
+// and nothing else. A fresh slice: the input may be shared.
+func keepOPT(extra []dns.RR) []dns.RR {
+	for _, rr := range extra {
+		if rr.Header().Rrtype == dns.TypeOPT {
+			return []dns.RR{rr}
+		}
+	}
+	return nil
 }
 
 func (r *Resolver) clearAdditional(req, resp *dns.Msg, extra ...bool) *dns.Msg {
